@@ -430,6 +430,8 @@ class World:
             coro = self._cage_body(spec)
         elif cage == "child":
             coro = self._cage_child(spec)
+        elif spec.get("wraps"):
+            coro = self.tasks[spec["wraps"]]     # the payload is another Task: `scope.do(task)`
         else:
             coro = self.actor(spec)
         task = scope.do(coro, **kwargs)
